@@ -407,6 +407,7 @@ def rule_pass(text, log, cfgset):
         ed.replace(a, b, new)
 
     consumed = set()
+    gate_n = [0]
     n = len(toks)
     # R6 attributes
     for i, c, name in _attr_spans(toks, groups):
@@ -530,6 +531,44 @@ def rule_pass(text, log, cfgset):
                 elif len(parts) >= 2:
                     rec("R7-assert-eq", t.start, toks[c].end,
                         "%s!((%s) %s (%s))" % (base, ptxt(parts[0]), op, ptxt(parts[1])))
+        # R18 guarded match used as an early-return gate:
+        #     match S { P if G => {} _ => return X, }   ->   let shim_gate_N = match S { P if G => true, _ => false }; if !shim_gate_N { return X; }
+        # (same control flow; Verus loses track of `&mut` places when a `return` sits in an arm after a GUARDED arm)
+        if t.text == "match" and t.kind == "id":
+            j = i + 1
+            while j < n and toks[j].text != "{":
+                j = groups[j] + 1 if toks[j].text in ("(", "[") else j + 1
+            if j < n:
+                o, c = j, groups[j]
+                # first arm: tokens up to the first top-level `=>`
+                k = o + 1
+                has_if = False
+                while k < c and toks[k].text != "=>":
+                    if toks[k].text in ("(", "[", "{"):
+                        k = groups[k] + 1
+                        continue
+                    if toks[k].text == "if" and toks[k].kind == "id":
+                        has_if = True
+                    k += 1
+                if has_if and k + 2 < c and toks[k + 1].text == "{" and groups[k + 1] == k + 2:
+                    q = k + 3
+                    if toks[q].text == ",":
+                        q += 1
+                    if q + 2 < c and toks[q].text == "_" and toks[q + 1].text == "=>" and toks[q + 2].text == "return":
+                        e = c - 1
+                        if toks[e].text == ",":
+                            e -= 1
+                        if not any(toks[x].text in ("=>",) for x in range(q + 3, e + 1)):
+                            ret = text[toks[q + 3].start:toks[e].end] if e >= q + 3 else ""
+                            gate_n[0] += 1
+                            gate = "shim_gate_%d" % gate_n[0]
+                            whole = text[t.start:toks[c].end]
+                            arm1 = text[toks[o + 1].start:toks[k].end]
+                            stmt_end = toks[c].end
+                            new_txt = "let %s = %s{ %s true, _ => false }; if !%s { return %s; }" % (gate, text[t.start:toks[o].start], arm1, gate, ret)
+                            rec("R18-guarded-match-gate", t.start, stmt_end, new_txt)
+                            consumed.update(range(i, c + 1))
+                            continue
         # R9 full-range slicing of a place:  &X[..] / &mut X[..]
         if t.text == "&" and i + 1 < n:
             j = i + 1
